@@ -106,6 +106,40 @@ def f(x, y):
 '''
 
 
+# functions taking structured arguments (a tuple holding a list, a list of tuples of lists, a list next to a tuple of it) that
+# write into / return the inner lists: (body, argument vectors)
+HAND_STRUCT = [('''
+@fp.fpy
+def f(t, y):
+    xs, s = t
+    xs[0] = xs[0] + y
+    return (xs, s + y)
+''', [[([1.0, 2.0], 3.0), 0.5], [([0.25], -1.0), 2.0], [([3.0, 4.0, 5.0], 0.0), -0.5]]), ('''
+@fp.fpy
+def f(ts, y):
+    a, b = ts[0]
+    a[0] = y
+    b[0] = a[0] * 2
+    return ts
+''', [[[([1.0], [2.0])], 0.5], [[([1.5, 2.5], [3.0]), ([4.0], [5.0])], -2.0]]), ('''
+@fp.fpy
+def f(t, y):
+    p, q = t
+    us, vs = p
+    us[0] = us[0] + y
+    ws = vs
+    ws[0] = q
+    return (p, ws)
+''', [[(([1.0, 2.0], [3.0]), 4.0), 0.5], [(([0.5], [0.25, 8.0]), -1.0), 1.5]]), ('''
+@fp.fpy
+def f(rows, y):
+    r = rows[1]
+    r[0] = y
+    rows[0][0] = r[0] + rows[0][0]
+    return (rows[0], r)
+''', [[[[1.0, 2.0], [3.0, 4.0]], 0.5], [[[0.5], [0.25]], -3.0]])]
+
+
 def build_pool(seed: int, work: str, tier: str):
     """deterministic pool: list of entries {name, fn, args:[...], ctxs:[...]}; every entry's function is called `f` in its own module"""
     import fpy2 as fp
@@ -135,6 +169,13 @@ def build_pool(seed: int, work: str, tier: str):
             continue
         args = [[rng.choice(pool_vals), rng.choice(pool_vals)] for _ in range(3)]
         entries.append({'name': f'hand{k}', 'fn': mod.f, 'args': args, 'ctxs': [None, ctxs[2], ctxs[5]], 'mod': mod, 'program': None})
+    for k, (body, argvs) in enumerate(HAND_STRUCT):
+        src = 'import fpy2 as fp\nfrom fpy2 import *\n' + body
+        try:
+            mod = genprog.load_module(src, work, f'c18s{k}')
+        except Exception:
+            continue
+        entries.append({'name': f'struct{k}', 'fn': mod.f, 'args': argvs, 'ctxs': [None, ctxs[1], ctxs[5]], 'mod': mod, 'program': None, 'always_float_args': True})
     # transformed copies (deterministic: same transformations in the reference process)
     from fpy2 import strategies as S
     base = list(entries)
@@ -447,7 +488,7 @@ def shard(i: int, n: int, tier: str, seed: int) -> Result:
             ks = ','.join(map(str, key))
             monitored_call(res, entries[key[0]], key[1], key[2], ref, 'sequential', ks)
             note(ks, 'sequential', False)
-            if rng.random() < 0.3:
+            if rng.random() < 0.3 or entries[key[0]].get('always_float_args'):
                 monitored_call(res, entries[key[0]], key[1], key[2], ref, 'sequential', ks, float_args=True)
                 res.count('calls_with_float_arguments')
 
